@@ -1,6 +1,8 @@
 // ---- shared model of the deduplication units: extracted record types and constructors, metrics, xorb construction (from_chunks) ----
-pub const MDB_DEFAULT_FILE_FLAG: u32 = 0;
-pub const MDB_DEFAULT_CAS_FLAG: u32 = 0;
+//@ extract mdb_shard/src/file_structs.rs const MDB_DEFAULT_FILE_FLAG
+//@ end
+//@ extract mdb_shard/src/cas_structs.rs const MDB_DEFAULT_CAS_FLAG
+//@ end
 
 //@ extract deduplication/src/chunking.rs struct Chunk
 //@ end
